@@ -27,7 +27,7 @@ ASSUMPTIONS = [
     "instants within 0.1 s of a deadline (responses, connection changes) are not judged; after a reset the next deadline may count from any instant between the close and the re-establishment",
     "any delivered console-version message counts as a response, solicited or not",
 ]
-PROBES = ["c08.silence_from_start", "c08.silence_after_response", "c08.silence_after_reset", "c08.late_answer", "c08.blackhole", "c08.bare_manager",
+PROBES = ["c08.blocked_dead_link", "c08.silence_from_start", "c08.silence_after_response", "c08.silence_after_reset", "c08.late_answer", "c08.blackhole", "c08.bare_manager",
           "c08.reset_expected", "c08.second_reset_expected", "c08.all_answered", "c08.outage_over_tick"]
 
 
@@ -60,6 +60,15 @@ def generate(rng, index: int, tier: str) -> dict:
     bare = rng.random() < 0.3
     n = rng.choice([2, 4, 8, 12])
     style, acts = _pattern(rng, n + 8)
+    blocked = rng.random() < 0.15
+    if blocked:
+        # a dead link with a blocked write: after a few answered heartbeats the peer stops reading and answering; the next
+        # heartbeat sits in the transport, the reset at the deadline cannot finish closing until the peer finally resets
+        # the link (X seconds later); the console stays silent on the new connection as well
+        n_prompt = rng.choice([0, 1, 2])
+        n = max(n, n_prompt + 4)
+        style = "after_some" if n_prompt else "from_start"
+        acts = ["prompt"] * n_prompt + ["never"] * (n + 8 - n_prompt)
     lat = rng.choice([0.0, G.TICK, 2.0**-7])
     knobs = {"latency": lat, "seg": {"mode": "whole"}}
     if bare:
@@ -80,7 +89,16 @@ def generate(rng, index: int, tier: str) -> dict:
         end = (n + 2) * interval + timeout + 10.0
         info = {"bare": False, "interval": interval, "timeout": timeout, "style": style}
         sc = {"gen": gen, "mode": "api", "installation": inst, "knobs": knobs, "timeline": tl, "end": end, "info": info}
-    if rng.random() < 0.25:
+    if blocked:
+        first = (t_s if bare else 0.1)
+        t_stall = first + n_prompt * interval + interval / 2
+        t_deadline = first + (n_prompt * interval if n_prompt else 0.0) + timeout
+        x = rng.choice([5.0, 29.0, 31.0, 60.0, 100.0])
+        sc["timeline"].append({"at": t_stall, "op": "net.stall", "on": True})
+        sc["timeline"].append({"at": t_deadline + x, "op": rng.choice(["net.rst", "net.stall"]), "on": False})
+        sc["info"]["blocked_dead_link"] = x
+        sc["end"] = max(sc["end"], t_deadline + x + timeout + interval + 10.0)
+    elif rng.random() < 0.25:
         t_b = G.pick_time(rng, 5.0 if not bare else 3.0, end * 0.6, anchors=[interval, 2 * interval, timeout])
         sc["timeline"].append({"at": t_b, "op": "net.blackhole", "on": True})
         sc["info"]["blackhole_at"] = t_b
@@ -125,6 +143,8 @@ def execute(sc: dict) -> dict:
                      "mixed": "late_answer", "late_only": "late_answer", "all_prompt": "all_answered"}.get(style, "all_answered")] = 1
     if "blackhole_at" in info:
         probes["c08.blackhole"] = 1
+    if "blocked_dead_link" in info:
+        probes["c08.blocked_dead_link"] = 1
 
     def live_at(t):
         """(state, link): state in {'up','down','amb'}"""
@@ -140,6 +160,18 @@ def execute(sc: dict) -> dict:
     # ---- (a) cadence
     reqs = [f for f in common.client_frames(w) if f["reading"]["kind"] == "version_request" and f["t"] >= start - 1e-9]
     times = [f["t"] for f in reqs]
+    end_all = end
+    if "blocked_dead_link" in info:
+        # a heartbeat whose write is held by flow control returns late and the sender's phase moves by that much: the tick
+        # grid is judged up to the stall; afterwards only the spacing between consecutive requests (below)
+        t_stall = next((st["at"] for st in sc["timeline"] if st["op"] == "net.stall" and st.get("on", True)), end)
+        end = min(end, t_stall)
+        times = [t for t in times if t < end]
+        after = [f["t"] for f in reqs if f["t"] >= t_stall + T]
+        for a, b in zip(after, after[1:]):
+            if live_at((a + b) / 2)[0] == "up" and live_at(a)[0] == "up" and live_at(b)[0] == "up" and abs((b - a) - I) > 0.05:
+                V.append(viol("C08.heartbeat_spacing", {"a": a, "b": b, "interval": I}))
+                break
     if not times:
         if live_at(start)[0] == "up" and end - start > I:
             V.append(viol("C08.no_heartbeat", {"start": start}))
@@ -165,6 +197,7 @@ def execute(sc: dict) -> dict:
             if t < end and not any(abs(t - tk) <= 0.05 for tk in grid):
                 V.append(viol("C08.heartbeat_off_grid", {"t": t, "first": r0, "interval": I}))
                 break
+    end = end_all
     # ---- (b) deadline process
     resp = [d["t"] for d in common.delivered_frames(w) if d["reading"]["kind"] == "version" and d["t"] > start + 1e-9]
     closes = [(l["close"], l) for l in links if l["close"] is not None and l["close"] >= start and l["close_kind"] == "conn.close"]
